@@ -697,6 +697,10 @@ impl CompactionWorker {
         };
 
         // Release lock while doing actual compaction work
+        #[cfg(feature = "verif")]
+        let mut verif_stop_answers: Vec<bool> = vec![];
+        #[cfg(feature = "verif")]
+        let mut verif_closed_by_size: Vec<u64> = vec![];
         let compaction_result = parking_lot::MutexGuard::<'_, GuardedDbFields>::unlocked_fair(
             db_fields_guard,
             || -> RainDBResult<MergingIterator> {
@@ -735,6 +739,8 @@ impl CompactionWorker {
                     If the table file that is currently being built overlaps too much of the
                     grandparent files, start a new file.
                     */
+                    #[cfg(feature = "verif")]
+                    let verif_had_builder = compaction_state.has_table_builder();
                     if compaction_state.has_table_builder()
                         && compaction_state
                             .compaction_manifest_mut()
@@ -744,6 +750,11 @@ impl CompactionWorker {
                             Arc::clone(&db_state.table_cache),
                             &mut file_iterator,
                         )?;
+                    }
+                    #[cfg(feature = "verif")]
+                    if verif_had_builder {
+                        // the rule was asked; it answered "stop" iff the output was closed
+                        verif_stop_answers.push(!compaction_state.has_table_builder());
                     }
 
                     // Make a determination on whether or not to keep a key e.g. if it there are
@@ -824,6 +835,9 @@ impl CompactionWorker {
                                 .compaction_manifest()
                                 .max_output_file_size_bytes()
                         {
+                            #[cfg(feature = "verif")]
+                            verif_closed_by_size
+                                .push(compaction_state.current_output_mut().file_number());
                             compaction_state.finish_compaction_output_file(
                                 Arc::clone(&db_state.table_cache),
                                 &mut file_iterator,
@@ -946,6 +960,8 @@ impl CompactionWorker {
                                 )
                             })
                             .collect(),
+                        stop_answers: verif_stop_answers,
+                        closed_by_size: verif_closed_by_size,
                     },
                 );
             }
